@@ -40,8 +40,8 @@ constexpr auto sin_check(T const x) noexcept -> T
 {
     return ( // NaN check
         is_nan(x) ? etl::numeric_limits<T>::quiet_NaN() :
-                  // indistinguishable from zero
-            etl::numeric_limits<T>::epsilon() > abs(x) ? T(0)
+                  // sin(x) = x + O(x^3): indistinguishable from x (also keeps the sign of a zero)
+            etl::numeric_limits<T>::epsilon() > abs(x) ? x
                                                        :
                                                        // special cases: pi/2 and pi
             etl::numeric_limits<T>::epsilon() > abs(x - T(GCEM_HALF_PI))   ? T(1)
